@@ -398,7 +398,6 @@ fn metakey_info(name: &str) -> (&'static str, &'static str) {
 const KEY_NAMES: [&str; 5] = ["ka", "kb", "kf", "keys", "to_tuple"];
 const KEY_FN: usize = 2;
 const KEY_MAPMOD: usize = 3;
-const KEY_ITERMOD: usize = 4;
 
 #[derive(Clone, Debug, PartialEq, Eq, Serialize, Deserialize)]
 enum Op {
